@@ -16,6 +16,7 @@ pub struct Paths {
     pub ragc: PathBuf,
     pub ragc_checked: PathBuf,
     pub vcheck_checked: PathBuf,
+    pub vshuttle: PathBuf,
 }
 
 pub fn paths_from_env() -> Paths {
@@ -30,6 +31,7 @@ pub fn paths_from_env() -> Paths {
         vcheck_checked: PathBuf::from(
             std::env::var("VERIF_VCHECK_CHECKED").unwrap_or_else(|_| build.join("harness/checked/vcheck").to_string_lossy().to_string()),
         ),
+        vshuttle: build.join("vshuttle/release/vshuttle"),
         verif,
         repo,
     }
@@ -50,6 +52,7 @@ pub fn make_ctx(p: &Paths, prop: &str, tier: Tier, seed: u64, shard: usize, nsha
         ragc: p.ragc.clone(),
         ragc_checked: p.ragc_checked.clone(),
         vcheck_checked: p.vcheck_checked.clone(),
+        vshuttle: p.vshuttle.clone(),
         scratch,
         known: KnownFindings::load(&p.verif),
         replaying: false,
